@@ -92,6 +92,34 @@ pub unsafe extern "C" fn syscall(num: c_long, a1: usize, a2: usize, a3: usize, a
     if num == libc::SYS_getrandom {
         return unsafe { getrandom(a1 as *mut c_void, a2, a3 as c_uint) } as c_long;
     }
+    if num == libc::SYS_futex {
+        let me = gettid();
+        let op = (a2 as c_int) & 0x7f & !(libc::FUTEX_PRIVATE_FLAG);
+        let is_wait = op == libc::FUTEX_WAIT || op == libc::FUTEX_WAIT_BITSET;
+        if me == BLOCKING_TID.load(Ordering::Relaxed) && is_wait {
+            BLOCKING_WAIT_ADDR.store(a1 as u64, Ordering::SeqCst);
+            BLOCKING_IDLE.store(true, Ordering::SeqCst);
+            let r = unsafe { raw6(num, a1, a2, a3, a4, a5, a6) };
+            BLOCKING_IDLE.store(false, Ordering::SeqCst);
+            BLOCKING_WAIT_ADDR.store(0, Ordering::SeqCst);
+            if r < 0 && r >= -4095 {
+                set_errno((-r) as c_int);
+                return -1;
+            }
+            return r as c_long;
+        }
+        if me == RT_TID.load(Ordering::Relaxed) && (op == libc::FUTEX_WAKE || op == libc::FUTEX_WAKE_BITSET)
+            && a1 as u64 == BLOCKING_WAIT_ADDR.load(Ordering::SeqCst) && a1 != 0
+        {
+            // the runtime thread wakes the futex the blocking thread is parked on: a job is being handed over.
+            // The thread counts as busy from this instant, although the kernel may not have scheduled it yet;
+            // it clears the flag itself when it parks again.
+            BLOCKING_IDLE.store(false, Ordering::SeqCst);
+        }
+    }
+    if num == libc::SYS_statx {
+        return unsafe { do_statx(a1 as c_int, a2 as *const c_char, a3 as c_int, a4 as c_uint, a5 as *mut libc::statx) } as c_long;
+    }
     let r = unsafe { raw6(num, a1, a2, a3, a4, a5, a6) };
     if r < 0 && r >= -4095 {
         set_errno((-r) as c_int);
@@ -121,7 +149,38 @@ pub fn log_line(s: &str) {
     raw_write_all(fd, &v);
 }
 
+/// Simulated file timestamps survive the process (they are filesystem metadata): persisted next to the plan.
+static ROOT: std::sync::OnceLock<String> = std::sync::OnceLock::new();
+
+fn mtimes_path() -> Option<String> {
+    ROOT.get().map(|r| format!("{}/_sim/mtimes.json\0", r))
+}
+
+pub fn save_mtimes() {
+    let Some(path) = mtimes_path() else { return };
+    let Ok(m) = MTIMES.try_lock() else { return };
+    let body = serde_json::to_string(&*m).unwrap_or_default();
+    unsafe {
+        let fd = raw6(libc::SYS_openat, libc::AT_FDCWD as usize, path.as_ptr() as usize,
+                      (libc::O_CREAT | libc::O_WRONLY | libc::O_TRUNC) as usize, 0o644, 0, 0) as c_int;
+        if fd >= 0 {
+            raw_write_all(fd, body.as_bytes());
+            raw6(libc::SYS_close, fd as usize, 0, 0, 0, 0, 0);
+        }
+    }
+}
+
+pub fn load_mtimes(root: &str) {
+    let _ = ROOT.set(root.trim_end_matches('/').to_string());
+    if let Ok(body) = std::fs::read_to_string(format!("{}/_sim/mtimes.json", root)) {
+        if let Ok(m) = serde_json::from_str::<std::collections::BTreeMap<String, i64>>(&body) {
+            *MTIMES.lock().unwrap() = m;
+        }
+    }
+}
+
 pub fn die(code: c_int) -> ! {
+    save_mtimes();
     unsafe { raw6(libc::SYS_exit_group, code as usize, 0, 0, 0, 0, 0) };
     loop {}
 }
@@ -192,6 +251,10 @@ fn io_event(seam: &mut Seam, op: &str, rel: &str, size: i64, data: Option<&[u8]>
                 break;
             }
         }
+    }
+    if matches!(op, "open" | "write" | "truncate" | "mkdir" | "rename" | "link") {
+        // file timestamps follow the simulated wall clock (see statx below)
+        MTIMES.lock().unwrap().insert(rel.to_string(), WALL_NS.load(Ordering::SeqCst));
     }
     let mut line = format!("{{\"t\":\"io\",\"k\":{},\"op\":{},\"path\":{}", k, jstr(op), jstr(rel));
     if LOG_TID.load(Ordering::Relaxed) {
@@ -325,6 +388,72 @@ pub static PARK_TIMEOUTS: AtomicU64 = AtomicU64::new(0);
 /// every ready task to exhaustion). This removes the only real concurrency left in the node, so the
 /// order of I/O events, gate arrivals and log lines is a pure function of the plan.
 pub static CONFIRMED: AtomicBool = AtomicBool::new(false);
+pub static BLOCKING_TID: AtomicI64 = AtomicI64::new(0);
+pub static BLOCKING_IDLE: AtomicBool = AtomicBool::new(true);
+pub static BLOCKING_WAIT_ADDR: AtomicU64 = AtomicU64::new(0);
+pub static RT_WAITING: AtomicBool = AtomicBool::new(false);
+pub static WAKE_PENDING: AtomicBool = AtomicBool::new(false);
+pub static BOUNDARY_WAITS: AtomicU64 = AtomicU64::new(0);
+
+fn thread_in_futex_wait(tid: i64) -> bool {
+    let path = format!("/proc/self/task/{}/syscall\0", tid);
+    let fd = unsafe { sc(libc::SYS_openat, libc::AT_FDCWD as usize, path.as_ptr() as usize, libc::O_RDONLY as usize, 0, 0) as c_int };
+    if fd < 0 {
+        return true;
+    }
+    let mut buf = [0u8; 64];
+    let n = unsafe { sc(libc::SYS_read, fd as usize, buf.as_mut_ptr() as usize, buf.len(), 0, 0) };
+    unsafe { sc(libc::SYS_close, fd as usize, 0, 0, 0, 0) };
+    n > 0 && is_futex_wait_line(&buf[..n as usize])
+}
+
+/// `/proc/<tid>/syscall` line of a thread blocked in futex WAIT (not WAKE): "202 <addr> <op> ...".
+fn is_futex_wait_line(line: &[u8]) -> bool {
+    if !line.starts_with(b"202 ") {
+        return false;
+    }
+    let text = std::str::from_utf8(line).unwrap_or("");
+    let mut it = text.split_whitespace();
+    let _nr = it.next();
+    let _addr = it.next();
+    let op = it.next().and_then(|s| u64::from_str_radix(s.trim_start_matches("0x"), 16).ok()).unwrap_or(u64::MAX);
+    let op = (op & 0x7f) as i32;
+    op == libc::FUTEX_WAIT || op == libc::FUTEX_WAIT_BITSET
+}
+
+/// Called by the runtime thread before it polls a task: while a blocking-pool job is running the runtime thread
+/// stands still (and lets the job's I/O through), so the two threads never make progress at the same time and a
+/// blocking job always completes between two task polls.
+pub fn runtime_poll_boundary() {
+    let bt = BLOCKING_TID.load(Ordering::Relaxed);
+    if bt == 0 || BLOCKING_IDLE.load(Ordering::SeqCst) {
+        return;
+    }
+    BOUNDARY_WAITS.fetch_add(1, Ordering::Relaxed);
+    RT_WAITING.store(true, Ordering::SeqCst);
+    let mut spins: u64 = 0;
+    while !BLOCKING_IDLE.load(Ordering::SeqCst) {
+        spins += 1;
+        // /proc is only a fallback against a mis-attributed wake-up: right after a hand-over the thread is still
+        // inside its futex wait although it is about to run
+        // safety net only (a wait that was not observed by the futex seam): after ~100 ms
+        if spins > 5_000 && spins % 512 == 0 && thread_in_futex_wait(bt) {
+            BLOCKING_IDLE.store(true, Ordering::SeqCst);
+            break;
+        }
+        if spins < 200 {
+            unsafe { raw6(libc::SYS_sched_yield, 0, 0, 0, 0, 0, 0) };
+        } else {
+            let ts = libc::timespec { tv_sec: 0, tv_nsec: 20_000 };
+            unsafe { raw6(libc::SYS_nanosleep, &ts as *const libc::timespec as usize, 0, 0, 0, 0, 0) };
+        }
+        if spins > 400_000 {
+            log_line("{\"t\":\"harness-error\",\"msg\":\"poll boundary wait timeout\"}");
+            break;
+        }
+    }
+    RT_WAITING.store(false, Ordering::SeqCst);
+}
 static PROC_FD: AtomicI32 = AtomicI32::new(-1);
 
 /// True when the kernel reports the runtime thread blocked inside epoll_wait/epoll_pwait.
@@ -348,19 +477,37 @@ fn runtime_in_epoll() -> bool {
     s.starts_with(b"232 ") || s.starts_with(b"281 ") || s.starts_with(b"441 ")
 }
 
+/// True when the runtime thread is blocked in a futex wait (pthread_join of a helper thread it spawned, or a
+/// lock the other thread holds): it makes no progress, so the other thread's I/O may proceed.
+fn runtime_in_futex() -> bool {
+    let fd = PROC_FD.load(Ordering::Relaxed);
+    if fd < 0 {
+        return false;
+    }
+    let mut buf = [0u8; 64];
+    let n = unsafe { sc(libc::SYS_pread64, fd as usize, buf.as_mut_ptr() as usize, buf.len(), 0, 0) };
+    n > 0 && is_futex_wait_line(&buf[..n as usize])
+}
+
 fn wait_turn() {
     let me = gettid();
     if me == RT_TID.load(Ordering::Relaxed) || RT_TID.load(Ordering::Relaxed) == 0 {
         return;
     }
-    if RT_PARKED.load(Ordering::SeqCst) && CONFIRMED.load(Ordering::SeqCst) {
+    if RT_WAITING.load(Ordering::SeqCst) || (RT_PARKED.load(Ordering::SeqCst) && CONFIRMED.load(Ordering::SeqCst)) {
         return;
     }
     PARK_WAITS.fetch_add(1, Ordering::Relaxed);
     let mut spins: u64 = 0;
     loop {
+        if RT_WAITING.load(Ordering::SeqCst) {
+            return;
+        }
         if RT_PARKED.load(Ordering::SeqCst) && runtime_in_epoll() && RT_PARKED.load(Ordering::SeqCst) {
             CONFIRMED.store(true, Ordering::SeqCst);
+            return;
+        }
+        if spins % 8 == 1 && !RT_PARKED.load(Ordering::SeqCst) && { runtime_in_epoll(); runtime_in_futex() } {
             return;
         }
         spins += 1;
@@ -376,6 +523,49 @@ fn wait_turn() {
             return;
         }
     }
+}
+
+pub static MTIMES: Mutex<std::collections::BTreeMap<String, i64>> = Mutex::new(std::collections::BTreeMap::new());
+pub static STATX_PATCHED: AtomicU64 = AtomicU64::new(0);
+
+/// File timestamps come from the kernel's real clock; code that compares them with event times (taken from the
+/// simulated wall clock) would see every file as years newer than every event. Report the simulated time of the
+/// last mutation instead, for paths below the data root.
+unsafe fn do_statx(dirfd: c_int, path: *const c_char, flags: c_int, mask: c_uint, buf: *mut libc::statx) -> c_int {
+    if armed() && !path.is_null() && path_is_tracked(dirfd, path) {
+        wait_turn();
+    }
+    let r = unsafe { sc(libc::SYS_statx, dirfd as usize, path as usize, flags as usize, mask as usize, buf as usize) as c_int };
+    if r != 0 || !armed() || buf.is_null() {
+        return r;
+    }
+    let rel = {
+        let g = SEAM.lock().unwrap();
+        let Some(seam) = g.as_ref() else { return r };
+        let ps = cpath(path).unwrap_or_default();
+        if ps.is_empty() {
+            fd_rel(seam, dirfd)
+        } else {
+            resolve_at(seam, dirfd, &ps).and_then(|full| tracked(seam, &full).map(|x| x.1))
+        }
+    };
+    if let Some(rel) = rel {
+        if let Some(ns) = MTIMES.lock().unwrap().get(&rel).copied() {
+            unsafe {
+                (*buf).stx_mtime.tv_sec = ns.div_euclid(1_000_000_000);
+                (*buf).stx_mtime.tv_nsec = ns.rem_euclid(1_000_000_000) as u32;
+                (*buf).stx_ctime = (*buf).stx_mtime;
+                (*buf).stx_atime = (*buf).stx_mtime;
+            }
+            STATX_PATCHED.fetch_add(1, Ordering::Relaxed);
+        }
+    }
+    r
+}
+
+#[unsafe(no_mangle)]
+pub unsafe extern "C" fn statx(dirfd: c_int, path: *const c_char, flags: c_int, mask: c_uint, buf: *mut libc::statx) -> c_int {
+    unsafe { do_statx(dirfd, path, flags, mask, buf) }
 }
 
 static EVENTFDS: Mutex<Vec<c_int>> = Mutex::new(Vec::new());
@@ -486,7 +676,9 @@ unsafe fn do_open(dirfd: c_int, path: *const c_char, flags: c_int, mode: libc::m
     if !armed() {
         return real(path);
     }
-    if flags & WRITE_FLAGS != 0 && path_is_tracked(dirfd, path) {
+    if path_is_tracked(dirfd, path) {
+        // also for read-only opens: a blocking task that only reads (SHOW's frame decoder, segment discovery)
+        // must not run concurrently with the runtime thread either
         wait_turn();
     }
     let Some(ps) = cpath(path) else { return real(path) };
@@ -744,6 +936,14 @@ unsafe fn do_rename(odfd: c_int, old: *const c_char, ndfd: c_int, new: *const c_
         return -1;
     }
     let r = real();
+    if r == 0 {
+        let mut m = MTIMES.lock().unwrap();
+        let moved: Vec<(String, i64)> = m.range(orel.clone()..).take_while(|(p, _)| p.starts_with(&orel)).map(|(p, v)| (p.clone(), *v)).collect();
+        for (p, v) in moved {
+            m.remove(&p);
+            m.insert(format!("{}{}", nrel, &p[orel.len()..]), v);
+        }
+    }
     after_event(k);
     r
 }
